@@ -26,6 +26,8 @@ FIXED = [
  ("C08", "dragged its TTL and data along", "insert_rr(Section::Question) with a full record (insert_rr_from_string / add_to_question) inserted TTL, rdlength and rdata into the question section: packet rejected by the parser"),
  ("C10", "before checking the section count", "insert_rr spliced the record in before the count check: a refused second question left extra bytes (packet no longer parses)"),
  ("C10", "size check underflowed", "insert_rr: 8192 - len underflowed for packets > 8192 bytes: panic (debug) / size limit bypass (release)"),
+ ("C10", "no longer destroys the packet", "ParsedPacket::rename_with_raw_names returning an error after the re-parse failed left packet=None (e.g. target name with a forbidden character)"),
+ ("C10", "spliced unvalidated names", "rename_with_raw_names did not validate target/source: forbidden characters / trailing bytes gave an unparsable packet, a pointer byte panicked (abort through the C table)"),
  ("C12", "could never clear a flag", "set_flags cleared opcode and rcode and never cleared a flag bit (inverted masks)"),
  ("C13", "odd number of hex digits", "DS digest with an odd number of hex digits: hex::decode(..).unwrap() panic in RR::from_string"),
  ("C13", "62-byte label was rejected", "host name ending in a 62-byte label followed by a blank was a parse error (length guard fired on the terminating blank)"),
